@@ -124,6 +124,7 @@ def _check(prop, root, base, tier="quick"):
 
 
 _BASELINE = {}
+ALL_PROPS = [f"C{i:02d}" for i in range(1, 21)]
 
 
 def baseline(prop, base, tier="quick"):
@@ -152,7 +153,22 @@ def run_one(m, base):
     new = keys - bkeys
     if m.get("benign"):
         ok = rc != 2 and not new
-        return m, "ok" if ok else "FALSE-ALARM", "" if ok else f"rc={rc} new={sorted(new)}\n" + out[-1200:]
+        info = "" if ok else f"rc={rc} new={sorted(new)}\n" + out[-1200:]
+        # a behaviour-preserving edit must leave EVERY property's verdict alone, not only its own
+        if ok and not os.environ.get("XV_TWINS_OWN_ONLY"):
+            root = make_scratch(base, edits)
+            try:
+                for other in ALL_PROPS:
+                    if other == m["prop"]:
+                        continue
+                    obrc, _, obkeys = baseline(other, base, "quick")
+                    orc, oout, okeys = _check(other, root, base, "quick")
+                    if orc == 2 or (okeys - obkeys):
+                        ok = False
+                        info += f"[{other}] rc={orc} new={sorted(okeys - obkeys, key=str)}\n" + "\n".join(l for l in oout.splitlines() if "ANALYSIS-ERROR" in l or l.lstrip().startswith("VIOLATED"))[:800] + "\n"
+            finally:
+                shutil.rmtree(root, ignore_errors=True)
+        return m, "ok" if ok else "FALSE-ALARM", info
     want = f"{m['prop']}.{m['rule']}" if m.get("rule") else None
     if rc == 1 and new and (want is None or any(r == want for r, _ in new)):
         return m, "ok", "; ".join(f"{r} {k}" for r, k in sorted(new, key=str))[:300]
@@ -199,8 +215,11 @@ def summary(prop, jobs=16):
         return {"variants": 0}
     base = tempfile.mkdtemp(prefix="xv-selftest-", dir="/dev/shm" if os.path.isdir("/dev/shm") else None)
     try:
-        for pr in sorted({(m["prop"], m.get("tier", "quick")) for m in muts}):
-            baseline(pr[0], base, pr[1])
+        need = {(m["prop"], m.get("tier", "quick")) for m in muts}
+        if any(m.get("benign") for m in muts) and not os.environ.get("XV_TWINS_OWN_ONLY"):
+            need |= {(p_, "quick") for p_ in ALL_PROPS}
+        with cf.ThreadPoolExecutor(max_workers=jobs) as ex0:
+            list(ex0.map(lambda pr: baseline(pr[0], base, pr[1]), sorted(need)))
         with cf.ThreadPoolExecutor(max_workers=jobs) as ex:
             res = list(ex.map(lambda m: run_one(m, base), muts))
     finally:
@@ -230,8 +249,11 @@ def main(props, jobs=16, verbose=False):
     t0 = time.time()
     res = []
     try:
-        for pr in sorted({(m["prop"], m.get("tier", "quick")) for m in muts}):
-            baseline(pr[0], base, pr[1])
+        need = {(m["prop"], m.get("tier", "quick")) for m in muts}
+        if any(m.get("benign") for m in muts) and not os.environ.get("XV_TWINS_OWN_ONLY"):
+            need |= {(p_, "quick") for p_ in ALL_PROPS}
+        with cf.ThreadPoolExecutor(max_workers=jobs) as ex0:
+            list(ex0.map(lambda pr: baseline(pr[0], base, pr[1]), sorted(need)))
         with cf.ThreadPoolExecutor(max_workers=jobs) as ex:
             for r in ex.map(lambda m: run_one(m, base), muts):
                 res.append(r)
